@@ -138,3 +138,10 @@ verus_unit("containerv", "containerv", ["C12", "C03", "C15", "C06", "C10"], [
     "<OodFrame as Serializable>::write_into / <OodFrame as Deserializable>::read_from (three byte vectors behind 16-bit length prefixes, every content and length below 2^16)",
     "<Commitments as Serializable>::write_into / <Commitments as Deserializable>::read_from (one byte vector behind a 16-bit prefix; the writer's assertion is the documented pre-condition)",
     "round-trip theorems for the three containers (relative to the round trip of the fixed-width prefixes, a hypothesis here and a complete Kani contract of C12 for the real readers)"])
+
+
+native_unit("context_native", "winter-air", "air", "native/context_bounded.rs", ["C04", "C03"],
+            ["<Context as ToElements>::to_elements", "<TraceInfo as ToElements>::to_elements", "<ProofOptions as ToElements>::to_elements"],
+            "the seed elements are injective in the proof context: no two different trace-metadata strings, and no two contexts that differ in width, trace length or any option, are absorbed as the same element list",
+            "NATIVE EXECUTION, not a proof: every metadata string of length 0..=16 over the alphabets {0, b}, b in 1..=16, for the 64-bit field (2.1 million strings, compared through a hash map), length 0..=12 for the 128-bit field; 3 widths x 3 trace lengths x 7 option sets x 3 metadata values",
+            timeout=900)
